@@ -25,7 +25,17 @@ SCRATCH = os.environ.get("VERIF_SCRATCH", "/var/tmp/verif-mos")
 def run_killable(cmd, cwd, env=None, timeout=900):
     """subprocess.run that kills the whole process group on timeout (kani leaves cbmc children behind otherwise)"""
     import signal
-    p = subprocess.Popen(cmd, cwd=cwd, env=env, stdout=subprocess.PIPE, stderr=subprocess.PIPE, text=True, start_new_session=True)
+    import resource
+    cap = int(float(os.environ.get("VERIF_MEM_GB", "12")) * (1 << 30))
+
+    def limit():
+        # address-space cap per process (cbmc that outgrows it ends with "out of memory" -> UNDECIDED, never an alarm);
+        # keeps a runaway solver from exhausting the machine
+        try:
+            resource.setrlimit(resource.RLIMIT_AS, (cap, cap))
+        except Exception:
+            pass
+    p = subprocess.Popen(cmd, cwd=cwd, env=env, stdout=subprocess.PIPE, stderr=subprocess.PIPE, text=True, start_new_session=True, preexec_fn=limit)
     try:
         out, err = p.communicate(timeout=timeout)
         return p.returncode, out, err
